@@ -181,7 +181,7 @@ def _run_unit_once(name, template, vacuity, rlimit, extra_flags, use_cache, thre
     """Returns a dict describing the run.  Raises Undecided for anything that is not a clean
     pass or a genuine failed obligation."""
     t0 = time.time()
-    out_dir = os.path.join(BUILD, 'verus')
+    out_dir = os.path.join(BUILD, 'verus' + (('-' + os.environ['VERIF_SLOT']) if os.environ.get('VERIF_SLOT') else ''))
     os.makedirs(out_dir, exist_ok=True)
     os.makedirs(CACHE, exist_ok=True)
     unit_name = name + ('_vacuity' if vacuity else '')
